@@ -46,6 +46,8 @@ class PlanBaseError(BaseException):
 
 class _Ctx:
     repr = None  # the hy-repr function under which Box printers recurse
+    register = None
+    kept = None  # objects of earlier calls (system under test) / their specs (pristine instance)
 
 
 CTX = _Ctx()
@@ -70,6 +72,9 @@ PLACEHOLDER = {0: None, 1: "<BOX>", 2: None}
 def _box_printer(x):
     p = x.plan
     parts = []
+    if p.get("register"):
+        # a printer that (re-)registers a helper printer on first use
+        CTX.register(_S["boxes"][0], _box_printer, PLACEHOLDER[0])
     if p.get("reenter") is not None:
         parts.append("<" + CTX.repr(build(p["reenter"])) + ">")
     ra = p.get("raise_at")
@@ -198,6 +203,8 @@ def gen_value(rng, depth, nmut, boxes=True):
                 pl["exc"] = "planbase"
         if rng.random() < 0.25:
             pl["reenter"] = gen_value(rng, min(depth - 1, 2), 0, boxes=False)
+        if rng.random() < 0.08:
+            pl["register"] = True
         return {"t": "box", "cls": rng.choice([0, 1, 2]), "kids": kids, "plan": pl}
     t = rng.choice(["list", "list", "tuple", "dict", "set", "mlist", "mlist", "mtuple", "mset", "mexpr", "mexpr", "mdict"])
     n = rng.choice([0, 1, 2, 2, 3])
@@ -262,6 +269,9 @@ def build(spec, anc=None):
         return M.Float(spec["v"])
     if t == "ref":
         return anc[-spec["up"]]
+    if t == "kept":
+        k = CTX.kept[spec["i"]]
+        return build(k, []) if isinstance(k, dict) else k
     if t == "list":
         l = []
         anc.append(l)
@@ -476,6 +486,8 @@ def ref_repr(spec, q=False, anc=None):
         raise RecursionError()
     if t == "exotic":
         raise Unsupported()
+    if t == "kept":
+        return ref_repr(CTX.kept_specs[spec["i"]], q, [])
     items = [ref_repr(s, q, anc) for s in spec["items"]]
     if t in ("tuple", "mtuple"):
         return pre + "#(" + " ".join(items) + ")"
@@ -507,6 +519,8 @@ def shape(spec, d=2):
     t = spec["t"]
     if t == "exotic":
         return "x:" + spec["k"]
+    if t == "kept":
+        return "kept"
     if d == 0 or t not in ("list", "tuple", "dict", "set", "mlist", "mtuple", "mset", "mexpr", "mdict", "box"):
         return t
     if t == "dict":
@@ -544,8 +558,20 @@ def generate(rng, tier):
             ops.append({"value": ops[-1]["value"]})
             prev_failed_like = False
             continue
+        keepable = [j for j, o in enumerate(ops) if o.get("keep")]
+        if keepable and rng.random() < 0.25:
+            # the SAME object as an earlier call, alone or nested inside a fresh container / model
+            j = rng.choice(keepable)
+            ref = {"t": "kept", "i": j}
+            v = rng.choice([ref, {"t": "list", "items": [{"t": "int", "v": 5}, ref]}, {"t": "mlist", "items": [{"t": "sym", "v": "x"}, ref]},
+                            {"t": "tuple", "items": [ref, ref]}, {"t": "mexpr", "items": [{"t": "sym", "v": "g"}, ref]}])
+            ops.append({"value": v})
+            prev_failed_like = False
+            continue
         v = gen_value(rng, rng.choice([1, 2, 3, 3, 4]), 0)
         op = {"value": v}
+        if v["t"] not in ("deep",) and rng.random() < 0.4:
+            op["keep"] = True
         if rng.random() < 0.4:
             op["k"] = rng.choice([rng.randrange(0, 12), rng.randrange(0, 40), rng.randrange(0, 120)])
             op["exc"] = rng.choice(["fault", "fault", "fault", "base", "kbd"])
@@ -569,10 +595,14 @@ def _has_raise(spec):
 # ------------------------------------------------------------------ execution
 
 
-def _call(fn, hy_repr_code, spec, k, exc):
+def _call(fn, hy_repr_code, spec, k, exc, register=None, kept=None, keep_into=None):
     """One hy.repr call under the crash-point tracer. Returns (outcome, N, fired)."""
     CTX.repr = fn
+    CTX.register = register
+    CTX.kept = kept
     value = build(spec)
+    if keep_into is not None:
+        keep_into[0] = value
     # eligible = frames of printers proper: hy's built-in printers (same file as hy-repr, never hy-repr itself) and the
     # simulator's Box printers; frames of the standard library below them are excluded, because their line counts
     # depend on caches warmed by earlier calls (enum pseudo-members, re cache), which would make k land elsewhere
@@ -596,9 +626,9 @@ def _call(fn, hy_repr_code, spec, k, exc):
     return out, tr.count, tr.fired
 
 
-def _pristine_call(spec, k, exc):
+def _pristine_call(spec, k, exc, kept_specs=None):
     m = _fresh_instance()
-    return _call(m.hy_repr, m.hy_repr.__code__, spec, k, exc)
+    return _call(m.hy_repr, m.hy_repr.__code__, spec, k, exc, register=m.hy_repr_register, kept=kept_specs)
 
 
 def _forked_call(arg):
@@ -621,10 +651,21 @@ def execute(desc):
     failed_before = False
     nontrivial = False
 
-    def one(i, spec, k, exc, tag):
+    kept_objs, kept_specs = {}, {}
+    CTX.kept_specs = kept_specs
+
+    def one(i, spec, k, exc, tag, keep=False):
         nonlocal failed_before, nontrivial
-        got, n, fired = _call(sut, sut_code, spec, k, exc)
-        want, n2, fired2 = _pristine_call(spec, k, exc)
+        slot = [None]
+        got, n, fired = _call(sut, sut_code, spec, k, exc, register=_S["hy"].repr_register, kept=kept_objs,
+                              keep_into=slot if keep else None)
+        if keep:
+            kept_objs[i] = slot[0]
+            kept_specs[i] = spec
+            probes["objects_kept_for_later_calls"] = probes.get("objects_kept_for_later_calls", 0) + 1
+        if _has_kept(spec):
+            probes["calls_on_an_earlier_object"] = probes.get("calls_on_an_earlier_object", 0) + 1
+        want, n2, fired2 = _pristine_call(spec, k, exc, kept_specs)
         probes["calls"] += 1
         if failed_before:
             probes["checked_after_failure"] += 1
@@ -633,7 +674,7 @@ def execute(desc):
         if got != want:
             viols.append({"clause": "history_dependence", "sig": "%s/%s" % (got[0], want[0]),
                           "detail": {"op": i, "tag": tag, "got": got, "pristine": want, "k": k, "value": spec}})
-        if desc.get("fork_ref") and spec["t"] != "deep":
+        if desc.get("fork_ref") and spec["t"] != "deep" and not _has_kept(spec):
             try:
                 ref = kernel.run_isolated(_forked_call, (spec, k, exc), 60)
                 probes["forked_reference_calls"] += 1
@@ -682,7 +723,7 @@ def execute(desc):
                 one(i, PROBES[k % len(PROBES)], None, None, "probe")
                 probes["enumerated_crash_points"] += 1
         else:
-            one(i, spec, op.get("k"), op.get("exc"), "op")
+            one(i, spec, op.get("k"), op.get("exc"), "op", keep=bool(op.get("keep")))
     for j, p in enumerate(PROBES):
         one(len(desc["ops"]) + j, p, None, None, "probe")
 
@@ -691,8 +732,16 @@ def execute(desc):
             "steps": probes["calls"]}
 
 
+def _has_kept(spec):
+    if spec["t"] == "kept":
+        return True
+    if spec["t"] == "dict":
+        return any(_has_kept(v) for _, v in spec["items"])
+    return any(_has_kept(s) for s in spec.get("items", []) + spec.get("kids", []))
+
+
 def _has_ref(spec):
-    if spec["t"] == "ref":
+    if spec["t"] in ("ref", "kept"):
         return True
     if spec["t"] == "exotic":
         return any(_has_ref(s) for s in spec["kids"])
